@@ -74,6 +74,14 @@ RECURSIVE PadLeft(_, _)
 PadLeft(t, w) == IF Len(t) >= w THEN t ELSE PadLeft(<<48>> \o t, w)
 Digits(n, w) == PadLeft(DigitsOf(n), w)
 
+\* lexicographic order on code point sequences (Python str <)
+RECURSIVE LexLess(_, _)
+LexLess(a, b) ==
+    IF a = <<>> THEN b # <<>>
+    ELSE IF b = <<>> THEN FALSE
+    ELSE IF a[1] # b[1] THEN a[1] < b[1]
+    ELSE LexLess(Tail(a), Tail(b))
+
 \* UTF-8 width of a code point
 U8Len(c) == IF c < 128 THEN 1 ELSE IF c < 2048 THEN 2 ELSE IF c < 65536 THEN 3 ELSE 4
 RECURSIVE Octets(_)
